@@ -493,12 +493,37 @@ def make_uni(I, px, py, node=None):
     return obj
 
 
+def nested_helper(method, pred, default):
+    """the nested recursive function of Unification.<method> in a given ROLE (a predicate over its ast), whatever it is called"""
+    import ast
+    from vc.sorts import parse_source
+    tree = parse_source(REL)
+    for cls in tree.body:
+        if isinstance(cls, ast.ClassDef) and cls.name == 'Unification':
+            for m in cls.body:
+                if isinstance(m, ast.FunctionDef) and m.name == method:
+                    hits = [fn.name for fn in m.body if isinstance(fn, ast.FunctionDef)
+                            and any(isinstance(c, ast.Call) and isinstance(c.func, ast.Name) and c.func.id == fn.name for c in ast.walk(fn)) and pred(fn)]
+                    if len(hits) == 1:
+                        return hits[0]
+    return default
+
+
+def _stores_formatted_key(fn):
+    import ast
+    return any(isinstance(n, ast.Subscript) and isinstance(n.ctx, ast.Store) and isinstance(n.slice, ast.JoinedStr) for n in ast.walk(fn))
+
+
 class ScanDeep(Contract):
-    rel, qualname = REL, 'Unification.__call__.scan_deep'
+    rel, role = REL, 'Unification.__call__.scan_deep'
+
+    def __init__(self):
+        # the nested recursive helper of __call__ that records one feature per leaf under a formatted key (f'{variable}{index}'): found by role
+        self.qualname = 'Unification.__call__.' + nested_helper('__call__', _stores_formatted_key, 'scan_deep')
 
     def closure_env(self, I, f):
         env = Env(I.load_module('depccg.unification').env)
-        env.vars['scan_deep'] = f
+        env.vars[f.node.name] = f
         return env
 
     def cases(self, I):
@@ -571,7 +596,11 @@ def self_aliases(outer, nested):
 
 
 class Rec(Contract):
-    rel, qualname = REL, 'Unification.__getitem__.rec'
+    rel, role = REL, 'Unification.__getitem__.rec'
+
+    def __init__(self):
+        # the one nested recursive helper of __getitem__ (instantiates the variables of a bound category): found by role
+        self.qualname = 'Unification.__getitem__.' + nested_helper('__getitem__', lambda fn: True, 'rec')
 
     def closure_env(self, I, f):
         env = Env(I.load_module('depccg.unification').env)
